@@ -430,8 +430,9 @@ MANIFEST_TEXT = {
         text="Theorems (exact cover): for any list of paths with pairwise distinct cleaned forms and tame names the expansion of the "
              "model's result is a permutation of the selected cleaned inputs — any mix of widths, signs, frameless names, both "
              "styles; without SingleFiles the result is the same minus the non-numbered entries; hidden names are ignored "
-             "without the option; the listing never fails. The order-insensitivity clause is checked by correspondence only.",
-        note="Partial in one clause (order-insensitivity for uniform widths: tie only). Known finding: negative-zero frame tokens "
+             "without the option; the listing never fails; when every (dir, basename, extension) key has one digit width, every "
+             "permutation of the input gives the same set of sequences (C05_order).",
+        note="Known finding: negative-zero frame tokens "
              "(theorem guard TameName). Trusted: Lean kernel; regex recogniser for optionalFramePattern and sort.Slice (stable "
              "insertion sort for n <= 12) as models, tied by correspondence."),
     "C06": dict(
